@@ -481,7 +481,11 @@ def default_atom(node) -> str:
 
 def _num(node):
     if isinstance(node, ast.Constant) and isinstance(node.value, (int, float)) and not isinstance(node.value, bool):
-        return Fraction(node.value).limit_denominator(10 ** 12) if isinstance(node.value, float) else Fraction(node.value)
+        if isinstance(node.value, float):
+            if node.value != node.value or node.value in (float("inf"), float("-inf")):
+                return None
+            return Fraction(repr(node.value))  # the decimal literal exactly (1e-14 is 1/10**14, not 0)
+        return Fraction(node.value)
     if isinstance(node, ast.UnaryOp) and isinstance(node.op, ast.USub):
         v = _num(node.operand)
         return None if v is None else -v
